@@ -1518,6 +1518,11 @@ def check_preproc(case, rec):
             rec.label("out-of-range")
             neg = (np.arange(f.size).reshape(f.shape) % 5) == 1
             f = np.where(neg, tr[None, :] - 1.0 - np.abs(f0) - (sh or 0.0), f)
+            if case["trend"]["kind"] == "none":
+                # values exactly on the (open) end of the normalizer's domain, e.g. exact zeros under LogNormal / BoxCox
+                onb = (np.arange(f.size).reshape(f.shape) % 5) == 3
+                f = np.where(onb, 0.0 - (sh or 0.0), f)
+                rec.label("values_on_domain_bound")
     if norm == "Manly":
         f = f0 * 0.5 + tr[None, :]
     det = f - tr[None, :]
